@@ -47,3 +47,10 @@ impl std::fmt::Debug for RetrieveWrapper {
         write!(f, "{}", type_name_of_val(&self.0))
     }
 }
+
+/// Verification hook (feature `llg_verif`): re-exports of internal numeric helpers.
+#[cfg(feature = "llg_verif")]
+pub mod verif_exports {
+    pub use super::numeric::{check_number_bounds, rx_float_range, rx_int_range, Decimal};
+    pub use super::schema::NumberSchema;
+}
